@@ -247,7 +247,8 @@ counterexample that did not reproduce) - never a verdict.
 
 ## 12. Limits and what is not covered
 
-* C01 over the multicast proxy (no multicast route in the sandbox; the other transports are driven); stream replacement
+* Multicast datagrams cannot be received in the sandbox; for multicast players the checks observe the proxy's consumer
+  registration and the players' RTSP connections (two genuine defects found that way). Stream replacement
   while a disk-mode HLS stream of the same path still owns files with the same names (C10).
 * Freshness of the HLS window is a verdict in disk mode and at quiescence over HTTP only; in memory mode it is
   covered by model drift.
